@@ -166,7 +166,42 @@ def wide_case(rng):
     return cl, rng.choice(['w', 'w', 'wr']), qargs
 
 
+def build_then_fill_case(rng):
+    """clauses that first build their terms with `=` on body-only variables (partial structures, aliases) and fill the
+    holes afterwards, by later `=` goals or by calls: B1 = [a|B2], B2 = [b], Out = B1"""
+    nb = rng.choice([2, 3, 4, 5])
+    B = [V('B%d' % i) for i in range(1, nb + 1)]
+    H = [V('H1'), V('H2')]
+    consts = [A('a'), A('b'), I(1), NIL]
+    goals = []
+    for i in range(nb):
+        later = B[i + 1:]
+        r = rng.random()
+        if not later or r < 0.3:
+            rhs = rng.choice(consts + [C('f', A('a'))])
+        elif r < 0.5:
+            rhs = rng.choice(later)
+        elif r < 0.75:
+            rhs = C(rng.choice(['pair', 'f']), *[rng.choice(later + consts[:2]) for _ in range(rng.choice([1, 2]))])
+        else:
+            rhs = L([rng.choice(consts[:2] + later)], rng.choice(later + [NIL]))
+        g = C('=', B[i], rhs) if rng.random() < 0.8 else C('=', rhs, B[i])
+        goals.append(('call', g))
+    if rng.random() < 0.5:
+        rng.shuffle(goals)
+    if rng.random() < 0.4:
+        goals.insert(rng.randrange(len(goals) + 1), ('call', C('num', rng.choice(B))))
+    goals.append(('call', C('=', H[0], B[0])))
+    goals.append(('call', C('=', H[1], rng.choice([C('r', *B[:2]), B[-1], L(B[:2])]))))
+    cl = [(C('num', I(1)), ('true',)), (C('num', A('a')), ('true',)), (C('mk', *H), gen.conj(goals))]
+    qargs = [rng.choice([V('Q0'), V('Q0'), L([A('a'), A('b')]), A('a')]), rng.choice([V('Q1'), V('Q0')])]
+    return cl, 'mk', qargs
+
+
 def run_case(ctx, seed, idx, tier):
+    if idx >= ctx['exh'] and (idx - ctx["exh"]) % 50 == 9:
+        clauses, qn, qargs = build_then_fill_case(random.Random(seed * 43 + idx))
+        return _case(ctx, clauses, qn, qargs, None, {'build_then_fill_clauses': 1})
     if idx >= ctx['exh'] and (idx - ctx["exh"]) % 50 == 3:
         clauses, qn, qargs = wide_case(random.Random(seed * 41 + idx))
         return _case(ctx, clauses, qn, qargs, None, {'wide_heads': 1})
